@@ -212,7 +212,7 @@ theorem rxAbs_live {w} {g : RxG} (hl : g.live) (ha : rxAbs w g) : RxWorld w g :=
 theorem rxR_quiet {g : RxG} (hl : g.live) (hroom : g.fifo.length ≤ 63) (q : Req) (a : Ans) (g' : RxG) (hne : a.noErr)
     (hm : rxAnswer g g q a g') : rxE.R g q a g' := by
   rw [rxR_live hl]
-  refine ⟨hne, 0, false, ⟨Nat.zero_le _, by omega⟩, ?_⟩
+  refine Or.inl ⟨hne, 0, false, ⟨Nat.zero_le _, by omega⟩, ?_⟩
   rw [RxG.arrive_zero]
   exact hm
 theorem busRead_quiet (w : World) (hs : w.sched = []) (hf : w.faults = []) (reg n : Nat) :
